@@ -7,7 +7,9 @@ OPAQUE = [r"basic_stringstream", r"basic_ostream", r"^_ZNSo", r"^_ZStls", r"^_ZN
 def units(tier):
     q = tier == "quick"
     names = ["copyassign_ee", "copyassign_en", "copyassign_ne", "copyassign_nn", "moveassign_ee", "moveassign_en", "moveassign_ne", "moveassign_nn",
-             "copyctor_e", "copyctor_n", "movector_e", "movector_n", "valueops_e", "valueops_n", "cmp_ee", "cmp_en", "cmp_ne", "cmp_nn", "conv"]
+             "copyctor_e", "copyctor_n", "movector_e", "movector_n",
+             "convcopyassign_ee", "convcopyassign_en", "convcopyassign_ne", "convcopyassign_nn", "convmoveassign_ee", "convmoveassign_en", "convmoveassign_ne", "convmoveassign_nn",
+             "convcopyctor_e", "convcopyctor_n", "convmovector_e", "convmovector_n", "valueops_e", "valueops_n", "cmp_ee", "cmp_en", "cmp_ne", "cmp_nn", "conv"]
     ents = [Entry("vp_main_opt_" + n, unwind=10, timeout=600, desc="Optional<P> %s: has_value/value after the operation, copy independence, ghost lifetime map (ctor only on dead storage, "
                   "dtor/assign only on live objects, everything destroyed once)" % n) for n in names]
     ents += [Entry("vp_main_any_" + n, unwind=10, timeout=600, desc="Any %s" % n) for n in ["cmp_ee", "cmp_en", "cmp_ne", "cmp_nn", "value"]]
